@@ -10,6 +10,7 @@ from . import common, molprops
 
 SPEC = {
     "level": "exploration",
+    "level_text": "Exploration: snapshot/ensure contracts with unique atom and bond tags on canonicalize_molecule and serialize_molecule (argument fingerprint unchanged, bijective renaming onto 0..n-1, every input attribute and bond attribute kept, repeatable), plus random call histories and 'another drawing of the same molecule' in the same process.",
     "suite_under_monitor": True,
     "technique": "runtime contracts (icontract snapshot+ensure) on canonicalize_molecule and serialize_molecule with unique atom/bond tags; repeated-call histories",
     "rule": ("cases: M1 n<=4, M2 (charges, coordinates, bond types), M3, M4, M5, M7-small, corpus V3000+V2000; every atom carries a unique tag and a foreign "
